@@ -35,7 +35,8 @@ TProc ==
                IF i.o THEN /\ Check(pr.stdout = "", "C14", "o-also-prints")
                            /\ Check(Rec.file_written /\ Rec.file = Rec.lib.out, "C14", "o-file-differs-from-library")
                ELSE Check(pr.stdout = Rec.lib.out, "C14", "stdout-differs-from-library")
-          /\ (isErr /\ o.kind # "usage") => Check(pr.stdout = "", "C14", "error-prints-to-stdout")
+          \* not in the statement (only the status is): recorded, not judged
+          /\ (isErr /\ o.kind # "usage") => Note(pr.stdout = "", "C14", "error-prints-to-stdout")
           /\ Rec.twin => Check(pr.stdout = prev.stdout /\ pr.exit = prev.exit /\ Rec.file = prev.file, "C14", "stdin-differs-from-file")
           /\ ("rt" \in DOMAIN Rec) =>
                /\ Check(Rec.rt.proc.exit = 0, "C14", <<"round-trip-patch-fails", Rec.rt.proc.exit>>)
